@@ -1635,7 +1635,10 @@ func (g *Gen) genCounter() *Ast {
 			}
 		}
 		for _, sc := range g.scope {
-			if sc.Kind == "int" {
+			// (not the variable of a loop whose body may address elements through it: a stepped
+			// index can leave the bounds of the collection, and what the generated inspector
+			// answers there is the inspector's business, not dyntpl's)
+			if sc.Kind == "int" && !sc.Idx {
 				names = append(names, sc.Name)
 			}
 		}
